@@ -7,7 +7,7 @@
 (* printed as <<"MISMATCH", json>> and classified against the open known   *)
 (* findings.  TraceAccepted requires that every line was consumed.         *)
 (***************************************************************************)
-EXTENDS Order, KnownFindings, Range, Json, SequencesExt, FiniteSetsExt, Dpkg, MavenCV, SemVer, Pep440, GemVersion, Apk
+EXTENDS Order, KnownFindings, Range, ShorthandSem, Json, SequencesExt, FiniteSetsExt, Dpkg, MavenCV, SemVer, Pep440, GemVersion, Apk
 
 CONSTANTS TraceFile,     \* path of the NDJSON trace
           Prop,          \* property id being judged, e.g. "C01"
@@ -111,8 +111,22 @@ RangeC02(ev) ==
        \cup {[prop |-> "C02", eco |-> ev.eco, why |-> "panic", text |-> ev.text, probe |-> ev.panics[i], got |-> FALSE,
                want |-> FALSE, err |-> "", known |-> ""] : i \in 1..Len(ev.panics)}
 
+(* C05: a documented shorthand parses, and contains a probe exactly when the      *)
+(* probe lies in the documented interval(s).                                     *)
+ShortC05(ev) ==
+  IF ~ev.parsed
+  THEN {[prop |-> "C05", eco |-> ev.eco, why |-> "rejected", construct |-> ev.construct, text |-> ev.text, probe |-> "",
+         got |-> FALSE, want |-> TRUE, err |-> ev.err, known |-> "", p |-> <<>>, ivs |-> <<>>]}
+  ELSE {[prop |-> "C05", eco |-> ev.eco, why |-> "contains", construct |-> ev.construct, text |-> ev.text, probe |-> ev.probes[i].t,
+         got |-> ev.contains[i], want |-> Member(ev.probes[i].p, ev.ivs, ev.neg), err |-> "", known |-> "",
+         p |-> ev.probes[i].p, ivs |-> ev.ivs]
+          : i \in {i \in 1..Len(ev.probes) : ev.contains[i] # Member(ev.probes[i].p, ev.ivs, ev.neg)}}
+       \cup {[prop |-> "C05", eco |-> ev.eco, why |-> "panic", construct |-> ev.construct, text |-> ev.text, probe |-> ev.panics[i],
+               got |-> FALSE, want |-> FALSE, err |-> "", known |-> "", p |-> <<>>, ivs |-> <<>>] : i \in 1..Len(ev.panics)}
+
 Judge(ev) ==
   CASE ev.k = "matrix" /\ Prop = "C01" -> MatrixC01(ev)
+    [] ev.k = "short" /\ Prop = "C05" -> ShortC05(ev)
     [] ev.k = "range" /\ Prop = "C02" -> RangeC02(ev)
     [] ev.k = "matrix" /\ Prop = "C08" -> MatrixRef(ev) \cup AcceptC08(ev)
     [] ev.k = "audit" -> AuditRef(ev)
